@@ -103,6 +103,19 @@ Definition send_wire (E : engines) (md : mode) (seq : Z) (payload : list Z) : re
                                 (if c03_mac_over_ciphertext (m_etm md) then out else packet)))
          else []))).
 
+(* Packetizer.send_message(data): reads the message type byte of the uncompressed message
+   (IndexError when there is none), compresses when a compressor is installed, then frames the result *)
+Definition framed_payload (comp : option (list Z -> list Z)) (payload : list Z) : result (list Z) :=
+  match comp with
+  | Some f => Ok (if c03_compress_applies true then f payload else payload)
+  | None => if c03_compress_applies false then Raise TypeErr (* None(data) *) else Ok payload
+  end.
+
+Definition send_message (E : engines) (comp : option (list Z -> list Z)) (md : mode) (seq : Z)
+    (payload : list Z) : result (list Z) :=
+  if Z.of_nat (length payload) <=? c03_type_byte_index then Raise IndexErr
+  else bind (framed_payload comp payload) (send_wire E md seq).
+
 (* ---- table facts (decided by computation over the generated tables) --------------------------- *)
 (* RFC 4253 section 6: the padded length must be a multiple of max(8, block size); padding fits one byte *)
 Definition cipher_ok (c : c03_cipher) : bool :=
@@ -119,11 +132,16 @@ Definition summary (md : mode) (digest atag len : Z) : list Z :=
   [ length_field md len; pad_byte md len; pad_count md len; b2z (zero_pad md); packet_len md len;
     enc_off md; enc_len md len; tag_len md digest atag; wire_len md digest atag len ].
 
-(* toy drive: the harness calls set_outbound_cipher itself
-   ((enc, etm, aead, sdctr), (bs, mac_size, digest, atag), len) *)
-Definition run_toy (c : (bool * bool * bool * bool) * (Z * Z * Z * Z) * Z) : list Z :=
-  let '((enc, etm, aead, sdctr), (bs, mac, digest, atag), len) := c in
-  summary (mk_mode enc etm aead sdctr bs mac) digest atag len.
+(* what send_message does with a message of `raw` bytes whose framed (compressed, when a compressor is
+   installed) form has `flen` bytes: IndexError for a message without type byte, else the summary *)
+Definition send_summary (md : mode) (digest atag raw flen : Z) : list Z :=
+  if raw <=? c03_type_byte_index then [exn_code IndexErr] else summary md digest atag flen.
+
+(* toy drive: the harness calls set_outbound_cipher / set_outbound_compressor itself
+   ((enc, etm, aead, sdctr), (bs, mac_size, digest, atag), (raw, flen)) *)
+Definition run_toy (c : (bool * bool * bool * bool) * (Z * Z * Z * Z) * (Z * Z)) : list Z :=
+  let '((enc, etm, aead, sdctr), (bs, mac, digest, atag), (raw, flen)) := c in
+  send_summary (mk_mode enc etm aead sdctr bs mac) digest atag raw flen.
 
 (* _build_packet called directly (payload length 0 cannot go through send_message, which reads the
    message type byte): ((enc, etm, aead, sdctr), bs, len) -> [L, pad byte, pad bytes, zero?, len(packet)] *)
@@ -136,14 +154,14 @@ Definition default_cipher : c03_cipher := mk_cipher String.EmptyString 0 false f
 Definition default_mac : c03_mac := mk_mac String.EmptyString 0 false 0.
 
 (* table drive: the real Transport._activate_outbound configures the packetizer for table entries
-   ci, mi (ci < 0: the initial state, before NEWKEYS); AES-GCM tags are 16 bytes *)
-Definition run_table (c : Z * Z * Z) : list Z :=
-  let '(ci, mi, len) := c in
-  if ci <? 0 then summary initial_mode 0 16 len
+   ci, mi (ci < 0: the initial state, before NEWKEYS); AES-GCM tags are 16 bytes; (raw, flen) as above *)
+Definition run_table (c : Z * Z * (Z * Z)) : list Z :=
+  let '(ci, mi, (raw, flen)) := c in
+  if ci <? 0 then send_summary initial_mode 0 16 raw flen
   else
     let cc := nth (Z.to_nat (Z.min ci 1000)) c03_cipher_table default_cipher in
     let mm := nth (Z.to_nat (Z.min mi 1000)) c03_mac_table default_mac in
-    summary (negotiated cc mm) (ma_digest mm) 16 len.
+    send_summary (negotiated cc mm) (ma_digest mm) 16 raw flen.
 
 (* executable stand-ins for the library primitives (used by the non-vacuity example) *)
 Definition toy_engines : engines :=
